@@ -166,10 +166,10 @@ theorem C07_progress_woke (c b : Nat) (s : St) (h : Reach c b s) (hc : 1 ≤ c) 
   have hcc : 0 < s.c := by have := (reach_cfg h).1; omega
   exact ⟨_, by simp [run, step, hl, hw, hch, hp, hin, hcc]; rfl, by simp, rfl⟩
 
-/-- a loader pass started under the lock always runs to completion (with nobody blocked in a receive it ends by
-    `loaderDone` or `loaderUnshift`), leaves `delivered`/`accepted` untouched, and leaves the channel non-empty if it
+/-- a loader pass started under the lock always runs to completion (for c ≥ 1, or with nobody blocked in a receive, by
+    buffered sends ending in `loaderDone` or `loaderUnshift`; waiters are not needed and not consumed), leaves `delivered`/`accepted` untouched, and leaves the channel non-empty if it
     was non-empty or there was anything to move and c ≥ 1 -/
-theorem C07_pass_terminates (s : St) (hl : s.lock = .loader) (hw : s.waiters = 0) :
+theorem C07_pass_terminates (s : St) (hl : s.lock = .loader) (hw : s.waiters = 0 ∨ 0 < s.c) :
     ∃ acts s', acts.all noOffer = true ∧ run s acts = some s' ∧ s'.lock = .free ∧ s'.lpc = .waiting ∧
       s'.delivered = s.delivered ∧ s'.accepted = s.accepted ∧
       ((s.chan ≠ [] ∨ ((s.inflight ≠ none ∨ s.pool ≠ []) ∧ 0 < s.c)) → s'.chan ≠ []) := by
@@ -177,16 +177,16 @@ theorem C07_pass_terminates (s : St) (hl : s.lock = .loader) (hw : s.waiters = 0
   exact ⟨acts, s', ha, hr, pe.lock, pe.lpc, pe.deliv, pe.acc, pe.chanNe⟩
 
 /-- **Nothing stranded, whole queue (c ≥ 1).**  From every reachable quiescent state (no Offer in progress, no
-    pass in progress, nobody blocked in a receive) there is a continuation consisting only of Poll atoms (`notify`,
+    pass in progress; ANY number of consumers may be blocked in a receive) there is a continuation consisting only of Poll atoms (`notify`,
     `tryRecv`) and loader atoms — no further Offer — after which every accepted value has been delivered; by
     `C07_fifo` in acceptance order.  (Existence of the schedule = what repeated Poll calls and the passes they
     trigger do under a fair scheduler; fairness itself is an assumption.) -/
 theorem C07_drain (c b : Nat) (s : St) (h : Reach c b s) (hc : 1 ≤ c) (hl : s.lock = .free)
-    (hp : s.lpc ≠ .inpass) (hw : s.waiters = 0) :
+    (hp : s.lpc ≠ .inpass) :
     ∃ acts s', acts.all noOffer = true ∧ run s acts = some s' ∧ s'.delivered = s.accepted ∧
       s'.accepted = s.accepted ∧ Reach c b s' := by
   obtain ⟨acts, s', ha, hr, hd, hacc⟩ := drain (s.accepted.length - s.delivered.length + 1) s (reach_inv h)
-    (by rw [(reach_cfg h).1]; exact hc) hl hp hw (by omega)
+    (by rw [(reach_cfg h).1]; exact hc) hl hp (by omega)
   obtain ⟨pre, hpre⟩ := h
   refine ⟨acts, s', ha, hr, hd, hacc, pre ++ acts, ?_⟩
   rw [run_append, hpre]; simpa using hr
@@ -296,7 +296,9 @@ example : run (init 1 1) [.offerLock 1, .offerChan 1, .offerLock 2, .offerPool 2
 
 /-- observation (not a violation of the property as stated): a consumer already blocked in `Take` (waiters = 1)
     while the loader's pass found the channel full is not served until the NEXT Take/Poll/GetChannel call by
-    anyone posts a token — pool non-empty, channel empty, no token, loader asleep, lock free -/
+    anyone posts a token — pool non-empty, channel empty, no token, loader asleep, lock free.  The state satisfies
+    the hypotheses of `C07_drain` (lock free, no pass in progress, c = 1; one consumer blocked): a further Poll by
+    anyone drains it -/
 example : run (init 1 1) [.offerLock 1, .offerChan 1, .offerLock 2, .offerPool 2, .notify, .recvWait, .notify, .recvWait,
       .loaderWake, .loaderLock, .loaderPoll, .loaderUnshift, .recvTake] =
     some ⟨1, 1, [], [2], none, false, .free, .waiting, 1, [1, 2], [1]⟩ := by decide
